@@ -281,9 +281,54 @@ def strip_cast(e):
     return e
 
 
+def encode_reports(rep, f, c):
+    """C20 clause "output_encoding() is the encoding that ... encode() actually use[s]": every returning path of Encoding::encode reports,
+    as the second component of its result, the value of the one `self.output_encoding()` call (directly or through the local that
+    carries it into the conversion loop)."""
+    import paths as P
+    SELF = ('loc', 1)
+    fn = 'Encoding::encode'
+    b = f.body(fn)
+    if b is None:
+        rep.undecidable('C20-D2.encode', fn, 'not found', None, c)
+        return 0
+    heads = P.loop_heads(b)
+    n = 0
+    carriers = set()
+    oe = None
+    pre = [p for p in (P.summarize(b, blks, end) for blks, end in P.enumerate_block_paths(b, 0, stop=heads))]
+    for p in pre:
+        oc = [e for e in p.calls() if e[1] == 'Encoding::output_encoding' and strip_ref(e[2][0]) == SELF]
+        if len(oc) != 1:
+            continue
+        oe = ('call', oc[0][1], oc[0][2], oc[0][3])
+        if p.end[0] == 'stop':
+            for l, v in p.env.items():
+                if isinstance(l, int) and strip_ref(v) == oe:
+                    carriers.add(l)
+    def judge(p):
+        rv = p.env.get(0)
+        got = strip_ref(rv[2][1]) if rv is not None and rv[0] == 'agg' and rv[1] == 'tuple' and len(rv[2]) == 3 else None
+        ok = got is not None and (got == oe or (got[0] == 'init' and got[1] in carriers and len(b.defs.get(got[1], [])) == 1))
+        rep.ob('C20-D2.encode', fn, ok, 'a returning path of encode() reports an encoding other than the value of self.output_encoding() '
+               '(the encoding it actually converts with)', sp_str(b.blocks[p.blocks[-1]]['tsp']), None, c)
+    for p in pre:
+        if p.end[0] == 'return':
+            n += 1
+            judge(p)
+    for h in heads:
+        for p in P.region_paths(b, h):
+            if p.end[0] == 'return':
+                n += 1
+                judge(p)
+    return n
+
+
 def run(rep, facts, tier):
     import r_xud
     for c, f in facts.items():
         run_cfg(rep, f, c)
         r_xud.run(rep, f, c)
+        ne = encode_reports(rep, f, c)
+        rep.floor('C20-D2.encode', 'returning paths of Encoding::encode', ne, 3, c)
     return ('proof', MANIFEST['text'], ['Encoding Standard encoding list / output-encoding rule transcribed in rules/p_c20.py (SPEC, TO_UTF8, NOT_ASCII_COMPAT)'])
